@@ -67,6 +67,8 @@ type Case struct {
 
 	// which variant of the *other* property's source fact the model is to run with (probed from the
 	// implementation under test, so that the C05 check does not depend on C06's repair and vice versa)
+	Special string `json:"special,omitempty"` // a fixed scenario outside the case language (see workflow.go)
+
 	CfgInitialChecked *bool `json:"cfgInitialChecked,omitempty"`
 	CfgFwdStale       *bool `json:"cfgFwdStale,omitempty"`
 }
